@@ -31,6 +31,14 @@ ANSI_ESCAPE_PARTIAL_PATTERN = re.compile(
     rb"\x1B\s?((\](\d[^\x07\n]{0,64})?)|(\[[^@-~\n]{0,64}))?\Z"
 )
 
+# a whole escape sequence, or (group "partial") the start of one at the very end of what was read;
+# scanning with this pattern walks the buffer exactly like `_strip_ansi` does, so that the start of
+# a sequence is only looked for where no whole sequence is in the way
+ANSI_ESCAPE_OR_PARTIAL_PATTERN = re.compile(
+    ANSI_ESCAPE_PATTERN.pattern + rb"|(?P<partial>" + ANSI_ESCAPE_PARTIAL_PATTERN.pattern + rb")",
+    flags=re.VERBOSE,
+)
+
 
 @dataclass()
 class BaseChannelArgs:
@@ -678,10 +686,11 @@ class BaseChannel:
         if b"\x1b" not in buf:
             return buf
 
-        partial = re.search(pattern=ANSI_ESCAPE_PARTIAL_PATTERN, string=buf)
-        if partial:
-            self._ansi_partial = partial.group(0)
-            buf = buf[: partial.start()]
+        for sequence in re.finditer(pattern=ANSI_ESCAPE_OR_PARTIAL_PATTERN, string=buf):
+            if sequence.group("partial") is not None:
+                # not (yet) a whole sequence and nothing follows it: it can only be the last match
+                self._ansi_partial = sequence.group("partial")
+                buf = buf[: sequence.start()]
 
         return buf
 
